@@ -144,12 +144,13 @@ func main() {
 			if th {
 				return 25 * time.Minute
 			}
-			return 100 * time.Second
+			return 110 * time.Second
 		},
-		Rule: "BFS over update histories on the real FIB (tree, hash table m=1..3), RIB over FIB, content store, and Interest/Data/time histories on a real forwarding thread; after every transition a white-box dump of the private structures is compared with the minimal structure its live entries require; PIT states are additionally closed under quiescence (clock advanced beyond every lifetime with the periodic reaper running)",
+		Rule: "BFS over update histories on the real FIB (tree, hash table m=1..3), RIB over FIB, content store, and Interest/Data/time histories on a real forwarding thread (three alphabets: pit = two faces, exact/CanBePrefix, retransmissions, NextHopFaceId, bursts, Data by name and token; pitm = Data satisfying several entries at once, arriving on the upstream or on a downstream face, lifetimes 1 s and explicit 0; pitc = MustBeFresh/stale Data/admit-only so that cache entries and pending Interests share name-tree nodes, three Data names against content-store capacity 0, 1, 2); after every transition a white-box dump of the private structures is compared with the minimal structure its live entries require; PIT states are additionally closed under quiescence (clock advanced beyond every lifetime with the periodic reaper running)",
 		Assumptions: []string{
 			"equal canonical state (white-box dumps with clock-relative times) implies equal futures",
 			"finite universes of 4-5 nested/sibling prefixes, 2 faces",
+			"'promptly once satisfied' is judged against a reference of satisfaction kept by the harness (match rule of the property text: echoed token of this forwarder, else equal name / prefix with CanBePrefix; entries holding an unexpired Interest when the Data arrives, whatever face it arrives on), not against the implementation's satisfied flag; 'promptly' and 'shortly after' = two reaper intervals",
 		},
 	})
 }
